@@ -56,8 +56,11 @@ def gen_case(rng, cap, maxops):
             ops.append("d:%d" % rng.randint(0, cap + 1))
         elif r < w[0] + w[1] + w[2] + w[3]:
             ops.append("p:%d" % rng.randint(0, cap + 1))
-        else:
+        elif rng.random() < 0.5:
             ops.append("f")
+        else:
+            # cache.size / page size changed: def_realloc_caches (new cache, old one freed)
+            ops.append("r:%d" % rng.choice([1, 2, 3, 4, 8]))
     return ["%d" % cap] + ops
 
 
@@ -114,7 +117,7 @@ def spec_lines(line):
         if st is None:
             out.append((i, None, "no state printed: " + seg[:60]))
             break
-        if prev is None:
+        if prev is None or seg.startswith("realloc:"):
             out.append((i, "%s @ init @ %s" % (st, st), None))
         else:
             out.append((i, "%s @ %s @ %s" % (prev, seg_step(seg), st), None))
